@@ -102,6 +102,10 @@ PARS = {
                  "radius_effective_pd_n": 6},
         "m0pd2": {"radius_effective_mode": 0, "radius_effective": 45.0, "radius_effective_pd": 0.4,
                   "radius_effective_pd_n": 9, "radius_effective_pd_type": "schulz"},
+        # same mesh shapes as m0pd / m0pd2 but with the effective radius taken from P (mode 1, the default)
+        "m1pd": {"radius_effective": 45.0, "radius_effective_pd": 0.2, "radius_effective_pd_n": 6},
+        "m1pd2": {"radius_effective_mode": 1, "radius_effective": 45.0, "radius_effective_pd": 0.4,
+                  "radius_effective_pd_n": 9, "radius_effective_pd_type": "schulz"},
         "ppd": {"radius_pd": 0.1, "radius_pd_n": 6, "volfraction": 0.15},
         "beta": {"structure_factor_mode": 1, "radius_pd": 0.15, "radius_pd_n": 5, "charge": 30.0},
     },
